@@ -685,7 +685,7 @@ pub fn spell_dt(d: &Dt, t: &mut Tape) -> String {
 // the Rust-tokenizable sub-grammar (C19): spellings that mean the same to TOML and to rustc's lexer
 // ------------------------------------------------------------------------------------------------
 
-pub const RUST_KEYS: [&str; 16] = ["a", "b", "c", "d", "e", "k", "x", "y", "type", "fn", "a-b", "x_1", "crates-io", "a b", "cfg(windows)", "é"];
+pub const RUST_KEYS: [&str; 24] = ["a", "b", "c", "d", "e", "k", "x", "y", "type", "fn", "a-b", "x_1", "crates-io", "a b", "cfg(windows)", "é", "-v", "--flag", "-", "x-", "1st", "a.b", "", "a\"b"];
 
 pub fn spell_rust_key(k: &str) -> String {
     let ident_like = |s: &str| !s.is_empty() && s.chars().next().unwrap().is_ascii_alphabetic() && s.chars().all(|c| c.is_ascii_alphanumeric() || c == '_');
